@@ -17,6 +17,7 @@ import (
 	"time"
 
 	"github.com/google/gopacket"
+	"github.com/google/gopacket/layers"
 	"github.com/v-byte-cpu/sx/command/log"
 	"github.com/v-byte-cpu/sx/pkg/packet"
 	"github.com/v-byte-cpu/sx/pkg/scan"
@@ -32,6 +33,123 @@ func init() {
 	drv.Register("c08race", verifRaceGeneric)
 	drv.Register("c11race", verifRaceCache)
 	drv.Register("c14race", verifRaceLogger)
+	drv.Register("c06race", verifRaceReceive)
+}
+
+// ---- receive side: the real engine (SetupPacketEngine: sender + receiver(s) + scan method) reading a
+// burst of reply frames from one socket; the scan methods decode into structs they reuse, which is only
+// sound while exactly one goroutine hands frames to a method ----
+
+type raceNoPackets struct{}
+
+func (raceNoPackets) Packets(ctx context.Context, r *scan.Range) <-chan *packet.BufferData {
+	out := make(chan *packet.BufferData)
+	close(out)
+	return out
+}
+
+type raceRxWire struct {
+	mu     sync.Mutex
+	frames [][]byte
+	next   int
+	idle   chan struct{}
+}
+
+func (w *raceRxWire) WritePacketData(b []byte) error { return nil }
+func (w *raceRxWire) ReadPacketData() ([]byte, *gopacket.CaptureInfo, error) {
+	w.mu.Lock()
+	if w.next < len(w.frames) {
+		f := w.frames[w.next]
+		w.next++
+		w.mu.Unlock()
+		return append([]byte(nil), f...), &gopacket.CaptureInfo{CaptureLength: len(f), Length: len(f)}, nil
+	}
+	w.mu.Unlock()
+	<-w.idle
+	return nil, nil, fmt.Errorf("read: use of closed file")
+}
+
+func raceFrames(kind string, n int) [][]byte {
+	var out [][]byte
+	for i := 0; i < n; i++ {
+		src := net.IP{10, 0, byte(i >> 8), byte(i)}
+		mac := net.HardwareAddr{2, 0, 0, 1, byte(i >> 8), byte(i)}
+		eth := &layers.Ethernet{SrcMAC: mac, DstMAC: net.HardwareAddr{2, 0, 0, 0, 0, 1}, EthernetType: layers.EthernetTypeIPv4}
+		ip := &layers.IPv4{Version: 4, IHL: 5, TTL: 64, SrcIP: src, DstIP: net.IP{10, 0, 0, 5}, Flags: layers.IPv4DontFragment}
+		buf := gopacket.NewSerializeBuffer()
+		opt := gopacket.SerializeOptions{FixLengths: true, ComputeChecksums: true}
+		switch kind {
+		case "tcp":
+			ip.Protocol = layers.IPProtocolTCP
+			t := &layers.TCP{SrcPort: layers.TCPPort(1 + i%60000), DstPort: 40000, SYN: true, ACK: true, Window: 1000}
+			t.SetNetworkLayerForChecksum(ip)
+			gopacket.SerializeLayers(buf, opt, eth, ip, t)
+		case "icmp":
+			ip.Protocol = layers.IPProtocolICMPv4
+			ic := &layers.ICMPv4{TypeCode: layers.CreateICMPv4TypeCode(uint8(i%3)*3, uint8(i%4))}
+			gopacket.SerializeLayers(buf, opt, eth, ip, ic, gopacket.Payload([]byte{1, 2, 3, 4}))
+		case "arp":
+			eth.EthernetType = layers.EthernetTypeARP
+			a := &layers.ARP{AddrType: layers.LinkTypeEthernet, Protocol: layers.EthernetTypeIPv4, HwAddressSize: 6, ProtAddressSize: 4, Operation: 2,
+				SourceHwAddress: mac, SourceProtAddress: src.To4(), DstHwAddress: []byte{2, 0, 0, 0, 0, 1}, DstProtAddress: []byte{10, 0, 0, 5}}
+			gopacket.SerializeLayers(buf, opt, eth, a)
+		}
+		out = append(out, append([]byte(nil), buf.Bytes()...))
+	}
+	return out
+}
+
+func verifRaceReceive(c *drv.Ctx) {
+	c.R.Rule = "free-running under -race: 4000 reply frames read from one socket by the real engine of scan.SetupPacketEngine with the real tcp, icmp and arp scan methods, results drained concurrently; auxiliary (sampling), decides nothing alone; the record count is checked all the same. non-trivial = method"
+	for _, kind := range []string{"tcp", "icmp", "arp"} {
+		const n = 4000
+		ctx, cancel := context.WithCancel(context.Background())
+		results := scan.NewResultChan(ctx, 1000)
+		var m scan.PacketMethod
+		switch kind {
+		case "tcp":
+			m = tcp.NewScanMethod("tcpsyn", raceNoPackets{}, results)
+		case "icmp":
+			m = icmp.NewScanMethod(raceNoPackets{}, results, false)
+		case "arp":
+			m = arp.NewScanMethod(raceNoPackets{}, results)
+		}
+		w := &raceRxWire{frames: raceFrames(kind, n), idle: make(chan struct{})}
+		engine := scan.SetupPacketEngine(w, m)
+		_, errc := engine.Start(ctx, &scan.Range{})
+		go func() {
+			for range errc {
+			}
+		}()
+		seen := map[string]int{}
+		timeout := time.After(20 * time.Second)
+	loop:
+		for len(seen) < n {
+			select {
+			case r, ok := <-engine.Results():
+				if !ok {
+					break loop
+				}
+				seen[r.ID()]++
+			case <-timeout:
+				break loop
+			}
+		}
+		cancel()
+		close(w.idle)
+		c.Eval(1)
+		c.Nontrivial(1)
+		dup := 0
+		for _, k := range seen {
+			if k > 1 {
+				dup++
+			}
+		}
+		if len(seen) != n || dup > 0 {
+			c.Fail("receive-burst:"+kind, fmt.Sprintf("%s: %d distinct reply frames were read back to back, the engine produced records for %d distinct hosts (%d of them more than once)", kind, n, len(seen), dup), nil)
+		}
+		c.Sample(map[string]any{"method": kind, "frames": n, "distinct_records": len(seen)})
+	}
 }
 
 type raceGen struct{ n int }
